@@ -146,8 +146,26 @@ package monitoring2
 //@   label C40.perm.serialize
 //@   requires c40Quiescent
 //@   assigns nothing
+// No assigns clause: the deferred `resume()` is a call of a function VALUE (closure returned by pauseForInspection), which the
+// engine cannot bind to a contract; what IS checked is that Serialize's permission holds where it is called.
 //@ fn (*Monitor).listComponentDetails
 //@   property C40
 //@   requires m != nil && m.engine != nil && r != nil && r.URL != nil
 //@   panics any
-//@   assigns m.enginePaused, c40Quiescent
+
+// GET /api/hangdetector/buffers: reads the level of every registered buffer (queueing.Buffer.Size = len(elements), port queues).
+//@ iface monitoring2.bufferState.Size()
+//@   trusted
+//@   label C40.perm.bufsize
+//@   requires c40Quiescent
+//@   pure
+//@ iface monitoring2.bufferState.Name()
+//@   trusted
+//@   pure
+//@ iface monitoring2.bufferState.Capacity()
+//@   trusted
+//@   pure
+//@ fn (*Monitor).hangDetectorBuffers
+//@   property C40
+//@   requires m != nil && r != nil && r.URL != nil
+//@   panics any
